@@ -67,10 +67,14 @@ def check_case(case):
     try:
         for i in range(n):
             parser.get_cmd_parser(names[i]).add_argument('--o%d' % (i + 1), action='store_true')
+            # two more option strings of the same parser which share one destination
+            parser.get_cmd_parser(names[i]).add_argument('--y%d' % (i + 1), dest='f%d' % (i + 1), action='store_true', default=None)
+            parser.get_cmd_parser(names[i]).add_argument('--n%d' % (i + 1), dest='f%d' % (i + 1), action='store_false', default=None)
         parser.add_argument('--glob', action='store_true')
         # a positional for the default command, so that free words are legal arguments
         dflt = names[case['default'] - 1]
         parser.get_cmd_parser(dflt).add_argument('items', nargs='*')
+        parser.get_cmd_parser(dflt).add_argument('--tag')
     except Exception as e:
         return [('adding options raised %s: %s' % (type(e).__name__, str(e)[:80]), [], None)], [], 0
     # I-spec binding: _dependent_parsers of every parser
@@ -91,6 +95,14 @@ def check_case(case):
                 viol.append(('%s: command %s %s option of %s (%s), declared graph says %s' % (
                     cmds, names[c], 'accepts' if got else 'rejects', names[o], r if r != 'ok' else 'ok',
                     'accept' if want else 'reject'), [], [names[c], '--o%d' % (o + 1)]))
+            for opt, val in (('--y%d' % (o + 1), True), ('--n%d' % (o + 1), False)):
+                r, ns = _parse(parser, [names[c], opt])
+                np_ += 1
+                got = r == 'ok' and getattr(ns, 'f%d' % (o + 1), None) is val and ns.command == names[c]
+                if r == 'exc' or got != want:
+                    viol.append(('%s: command %s %s option %s of %s (%s), declared graph says %s' % (
+                        cmds, names[c], 'accepts' if got else 'rejects', opt, names[o], r if r != 'ok' else 'ok',
+                        'accept' if want else 'reject'), [], [names[c], opt]))
         for argv in (['--glob'], ['--color'], ['--color=never'], ['-v'], ['--no-color'], ['-vv', '--glob']):
             r, ns = _parse(parser, [names[c]] + argv)
             np_ += 1
@@ -113,11 +125,21 @@ def check_case(case):
         if case['internal'][i]:
             free.append([names[i]])            # the name of an option set is not a command name
             free.append([names[i], 'word'])
-    for argv in free:
+    tagged = []
+    for i in range(n):
+        # a command / option-set name that is not the first argument is an ordinary word or option value
+        free.append(['--glob', names[i]])
+        free.append(['-v', names[i], 'word'])
+        tagged.append(names[i])
+    for argv in free + [['--tag', x] for x in tagged]:
         r, ns = _parse(parser, argv)
         np_ += 1
-        words = [a for a in argv if not a.startswith('-')]
-        good = r == 'ok' and ns.command == dname and list(ns.items) == words
+        if argv and argv[0] == '--tag':
+            words = []
+            good = r == 'ok' and ns.command == dname and ns.tag == argv[1] and list(ns.items) == []
+        else:
+            words = [a for a in argv if not a.startswith('-')]
+            good = r == 'ok' and ns.command == dname and list(ns.items) == words
         if not good:
             tags = ['cli.internal_name_as_first_word'] if (r == 'exit' and argv and argv[0] in names and
                                                            case['internal'][names.index(argv[0])]) else []
@@ -144,7 +166,7 @@ def _job(case):
 
 def run(ctx):
     ctx.assumptions += [
-        'family: one distinct option per parser (no two ancestors define the same option string), at least '
+        'family: three option strings per parser, two of them sharing a destination (no two ancestors define the same option string), at least '
         'one real command, default command = first real command and it takes free positional words',
         'argparse itself is trusted',
     ]
